@@ -299,8 +299,15 @@ def model_prog(drv, toks, pathspec='0'):
         if not l: raise RuntimeError("model driver died")
         l = l.rstrip('\n')
         if l.startswith('end '): break
+        if l.startswith('premises '):
+            # model-only line: do the decidable graph premises of the solver theorems (Solver.fwdWF / bwdWF) hold here?
+            global LAST_PREMISES
+            LAST_PREMISES = l
+            continue
         out.append(l)
     return out
+
+LAST_PREMISES = None
 
 
 def process(item):
@@ -319,7 +326,10 @@ def process(item):
             res['status'] = 'impl-timeout'; return res
         res['shapes'] = sorted(S.shapes_of(toks))
         drv = driver()
+        global LAST_PREMISES
+        LAST_PREMISES = None
         mlines = model_prog(drv, toks, '.'.join(p[1:] for p in item.get('path', ("B0",))))
+        res['premises'] = LAST_PREMISES
         cf, ck = item.get('ctx_fields'), item.get('ctx_kinds')
         # blocks shared between the main code and a subroutine, or between two subroutines ("subroutine bodies entered only
         # through callsub" is violated): only the contract-level graph is in any property's scope
